@@ -270,7 +270,7 @@ func (r *vfC02LazyRun) body(addCloser func(func())) {
 			if cap(buf) < b {
 				buf = make([]byte, b+4096)
 			}
-			n, err := s.Read(buf[:b])
+			n, err := s.Read(buf[:b:b])
 			if !check(si, d, buf[:b], n, err, target) {
 				return false
 			}
